@@ -643,7 +643,7 @@ def rule_data_presence_witness(chk, repo, rid):
     def tp_sig(call):
         d = {k.arg: U(k.value) for k in call.keywords}
         for i, a in enumerate(call.args[1:]):
-            d[["prefix", "extension"][i]] = U(a)
+            d[params(ci.find_method("to_path")[1])[2:][i]] = U(a)
         return d
     _, g = ci.find_method("get")
     _, sm = ci.find_method("store_metadata")
@@ -1052,7 +1052,7 @@ def rule_location_agreement(chk, repo, rid):
     def sig(c):
         d = dict(tp_def)
         for i, a in enumerate(c.args[1:]):
-            d[["prefix", "extension"][i]] = U(a)
+            d[params(tp)[2:][i]] = U(a)
         d.update({k.arg: U(k.value) for k in c.keywords})
         return tuple(sorted(d.items()))
     sigs = {}
